@@ -267,6 +267,27 @@ def main():
                 mod = importlib.import_module(payload["pkg"] + "." + act["mod"])
                 setattr(mod, act["name"], build(act["value"]))
                 res["out"] = "ok:N"
+            elif a == "reprog":
+                # the code changes while the process lives (notebook cell re-executed / module reloaded):
+                # the files are rewritten, removed functions are deleted, modules are reloaded
+                import linecache
+                import progs
+                newp = act["prog"]
+                newp["root"] = tuple(newp["root"])
+                for m in newp["modules"].values():
+                    for f in m["funcs"]:
+                        for st in f["stmts"]:
+                            if "callee" in st:
+                                st["callee"] = tuple(st["callee"])
+                progs.write_package(newp, payload["root"])
+                linecache.clearcache()
+                for mname in sorted(newp["modules"]):
+                    mod = importlib.import_module(payload["pkg"] + "." + mname)
+                    keep_names = {f["name"] for f in newp["modules"][mname]["funcs"]}
+                    for n in [n for n, o in list(vars(mod).items()) if callable(o) and getattr(o, "__module__", None) == mod.__name__ and n not in keep_names]:
+                        delattr(mod, n)
+                    importlib.reload(mod)
+                res["out"] = "ok:N"
             elif a == "load":
                 res["out"] = "ok:" + canon(dds.load(act["path"]))
             elif a == "rawfile":
